@@ -3,10 +3,11 @@ import re
 import time
 
 from framework.checklib import CorrResult
-from harness import subcorr
+from harness import patcorr, subcorr
+from translator import t5_patterns
 
 ID = 'C04'
-TRANSLATORS = []
+TRANSLATORS = [t5_patterns.translate]
 PROPERTY_FILE = 'Properties/C04.v'
 THEOREMS = []
 PARTIAL = {}
@@ -32,15 +33,29 @@ def correspondence(ctx, model_ok):
               '(30%) a seeded random valid sub-family in random order, validation on/off; end-to-end run of '
               'minimize_subcircuits through the shim solver; non-trivial = the call returned a circuit')
     cases = []
+    runs = []
     for i in range(ctx.n(250, 3000)):
         case = gen_case(ctx.rng, i)
-        res = subcorr.run_minimize(dict(case))
+        with patcorr.recording() as rec:
+            res = subcorr.run_minimize(dict(case))
         cases.append(case)
+        runs.append((case, rec.steps))
         r.add_case({k: v for k, v in case.items()}, res[0] == 'ok')
         r.count('outcome', 'returned' if res[0] == 'ok' else f'{res[1]}@{res[2]}')
         r.count('basis', case['basis'].upper())
         r.count('cut_family', 'full' if case['cut_seed'] is None else 'random sub-family')
     r._cases = cases
+    # translation validation of every recorded replace_subcircuit call (model replay + check_subst)
+    for i, st, why in patcorr.validate_steps(ID, r, runs, model_ok):
+        msg = oracle(dict(runs[i][0]))
+        if msg is None:
+            r.disagreements.append({'name': 'a replacement step is rejected by the validator on a run whose '
+                                            'end-to-end oracle passes', 'case': runs[i][0],
+                                    'detail': {'why': why, 'imap': st['imap'], 'omap': st['omap']}})
+        else:
+            r.count('step validation', 'rejected step on a run that fails end to end: ' + classify(runs[i][0], msg))
+    # pattern operations, cone simulation, don't-care tables against the model
+    patcorr.run_pattern_corr(ctx, ID, r, model_ok)
     return r
 
 
